@@ -124,7 +124,10 @@ def _mk_strategy(tag, has_defaults, dna):
             return [{'name': 'a', 'type': int, 'min': 0, 'max': 79, 'default': 7 if tag == 'r0' else 11},
                     {'name': 'b', 'type': float, 'min': 0.0, 'max': 7.9, 'default': 0.5 if tag == 'r0' else 0.25}]
         S.hyperparameters = hyperparameters
-    if dna:
+    if dna and not isinstance(dna, str):
+        # a dna() that chooses by the route it runs on: [for BTC-USDT, for ETH-USDT, for anything else]
+        S.dna = lambda self: {'BTC-USDT': dna[0], 'ETH-USDT': dna[1]}.get(self.symbol, dna[2])
+    elif dna:
         S.dna = lambda self: dna
     S.__name__ = 'S_' + tag
     return S
@@ -132,6 +135,8 @@ def _mk_strategy(tag, has_defaults, dna):
 
 def _expected(has_defaults, dna, explicit, tag):
     import jesse.helpers as jh
+    if dna and not isinstance(dna, str):
+        dna = dna[int(tag[1:])]
     if explicit is not None:
         return explicit
     decl = [{'name': 'a', 'type': int, 'min': 0, 'max': 79, 'default': 7 if tag == 'r0' else 11},
@@ -203,6 +208,13 @@ def run(ctx):
     for g in cs:
         cases.append({'routes': [[True, g + cs[7]]], 'explicit': None, 'fast': False})
         cases.append({'routes': [[True, cs[5] + g]], 'explicit': None, 'fast': True})
+    # a dna() that depends on the route (symbol): the genes decoded are those dna() returns on the configured route
+    bysym = [cs[12] + cs[34], cs[56] + cs[78], cs[49] + cs[9]]
+    for fast in (False, True):
+        cases.append({'routes': [[True, bysym]], 'explicit': None, 'fast': fast})
+        cases.append({'routes': [[True, bysym], [True, bysym]], 'explicit': None, 'fast': fast})
+        cases.append({'routes': [[True, cs[1] + cs[2]], [True, bysym]], 'explicit': None, 'fast': fast})
+        cases.append({'routes': [[True, bysym], [True, bysym]], 'explicit': {'a': 42, 'b': 4.2}, 'fast': fast})
     res = core.pmap(_session, cases, chunksize=4)
     for c, vs in zip(cases, res):
         ctx.extend(Violation.from_json(v) for v in vs)
